@@ -18,6 +18,15 @@ Streams
   `intersect_iteratively` on/off, `intersect`, assignment to `lower`/`upper`; ellipsoid `update`,
   assignment to `center`/`sigma`/`alpha`) and queried again: every answer must be the model's verdict
   for the regions' CURRENT attributes (read back from the objects).
+* rect-intB  : one bound of one region handed over in an integer container (int64 / int32 array or Python int
+  list) with fractional floats for the other bound, both orientations (is_dominated enumerates the corners
+  through `hyperrectangle_get_vertices`).
+* hist-shared: several rectangle regions built from SHARED bound arrays (the same ndarray objects, directly or
+  through the real `AdaptivelyDiscretizedDesignSpace.generate_child_designs`), `intersect_iteratively` on/off,
+  update()/intersect() sequences on some of them; after every step (a) a region that was not updated must
+  display unchanged bounds ((R) `region-mutated-by-sibling`), (b) every pairwise answer must be the model's
+  verdict on the bounds each region SHOULD display (tracked with the C14 model's intersect law, Lean op
+  `intersect`) ((R) `shared-rect-decision`).
 * rect-float : arbitrary floats, bundled orders / random float cones → borderline band
   (also small regions far from the origin: side 1e-4..1e-2 at |centre| 10..1000).
 * ell        : ellipsoids (SOCP per facet in the code) → borderline band.
@@ -223,7 +232,7 @@ def dy(rng, lo, hi, p):
     return Fraction(rng.randint(lo, hi), 2 ** p)
 
 
-def gen_rect_exact(ctx, rng, dtype=None):
+def gen_rect_exact(ctx, rng, dtype=None, intbound=False):
     name = rng.choice(sorted(INT_CONES))
     W = INT_CONES[name]
     m = len(W[0])
@@ -232,7 +241,10 @@ def gen_rect_exact(ctx, rng, dtype=None):
     if dtype is not None:                          # integer-dtype cone: fractional data matter
         p = rng.choice([1, 2, 4, 8])
         big = rng.choice([1, 1, 2, 4, 16])
-    remote = rng.random() < 0.25
+    if intbound:                                   # one bound in an integer container, fractional counterpart
+        p = rng.choice([1, 2, 4, 8])
+        big = rng.choice([1, 2, 4, 16])
+    remote = rng.random() < 0.25 and not intbound
     if remote:                                     # small region far from the origin:
         p = rng.choice([10, 13])                   # side 2^-13..2^-6 (1e-4..1.5e-2), |centre| 8..1000
         big = rng.choice([8, 64, 128, 1000, 1000])
@@ -271,6 +283,17 @@ def gen_rect_exact(ctx, rng, dtype=None):
             h2 = [Fraction(0)] * m
     l1 = [c - h for c, h in zip(c1, h1)]
     u1 = [c + h for c, h in zip(c1, h1)]
+    cont = None
+    if intbound:
+        # (int64 / int32 array or Python int list) for ONE bound of one region, fractional floats for the other
+        # bound — both orientations; box 1 is rounded before the placement (near-boundary cases survive)
+        cont = {"which": rng.choice(["l1", "l1", "u1", "u1", "l2", "u2"]), "as": rng.choice(["int64", "int32", "list"])}
+        if cont["which"] == "l1":
+            l1 = [Fraction(math.floor(x)) for x in l1]
+            u1 = [x + step if x.denominator == 1 else x for x in u1]
+        elif cont["which"] == "u1":
+            u1 = [Fraction(math.ceil(x)) for x in u1]
+            l1 = [x - step if x.denominator == 1 else x for x in l1]
     # slack
     sk = rng.choice(["zero", "scalar", "scalar", "vector", "vector", "negscalar"])
     KS = 256 if remote else K                      # slack magnitude (lattice steps)
@@ -320,6 +343,12 @@ def gen_rect_exact(ctx, rng, dtype=None):
             if mode == "incomparable" or all(x >= target for x in nm) or rng.random() < 0.05:
                 break
         l2, u2 = best
+    if cont and cont["which"] == "l2":
+        l2 = [Fraction(math.floor(x)) for x in l2]
+        u2 = [x + step if x.denominator == 1 else x for x in u2]
+    elif cont and cont["which"] == "u2":
+        u2 = [Fraction(math.ceil(x)) for x in u2]
+        l2 = [x - step if x.denominator == 1 else x for x in l2]
     spec = {"t": "int", "name": name}
     if dtype is not None:
         spec["dtype"] = dtype
@@ -328,6 +357,8 @@ def gen_rect_exact(ctx, rng, dtype=None):
             "l2": [float(x) for x in l2], "u2": [float(x) for x in u2],
             "slack": [float(x) for x in svals], "sform": form,
             "shape": ("remote-" if remote else "") + rel + "/" + mode}
+    if cont:
+        case["cont"] = cont
     # exactness guard of the generator itself: every number must fit comfortably in a double
     for k in ("l1", "u1", "l2", "u2", "slack"):
         for x, y in zip(case[k], {"l1": l1, "u1": u1, "l2": l2, "u2": u2, "slack": svals}[k]):
@@ -745,7 +776,7 @@ def gen_hist_ell(ctx, rng, nprng):
 
 def gen(ctx):
     rng, nprng = ctx.rng, ctx.nprng
-    plan = [("rect_exact", ctx.n(320, 60000)), ("rect_intW", ctx.n(90, 12000)),
+    plan = [("rect_exact", ctx.n(320, 60000)), ("rect_intW", ctx.n(90, 12000)), ("rect_intB", ctx.n(90, 12000)),
             ("rect_float", ctx.n(100, 15000)), ("ell", ctx.n(170, 30000)),
             ("hist_rect", ctx.n(40, 5000)), ("hist_shared", ctx.n(40, 5000)), ("hist_ell", ctx.n(12, 1500)),
             ("badslack", ctx.n(24, 1500))]
@@ -758,6 +789,8 @@ def gen(ctx):
                 case = gen_rect_exact(ctx, rng)
             elif stream == "rect_intW":
                 case = gen_rect_exact(ctx, rng, dtype=rng.choice(["int64", "int32", "list"]))
+            elif stream == "rect_intB":
+                case = gen_rect_exact(ctx, rng, intbound=True)
             elif stream == "hist_rect":
                 case = gen_hist_rect(ctx, rng)
             elif stream == "hist_shared":
@@ -818,12 +851,21 @@ def run_case(ctx, case):
         if case["order"].get("dtype"):
             ctx.count("cone_dtype_" + case["order"]["dtype"])
         l1, u1, l2, u2 = (np.array(case[k], dtype=float) for k in ("l1", "u1", "l2", "u2"))
-        r1 = RectangularConfidenceRegion(len(l1), l1, u1)
-        r2 = RectangularConfidenceRegion(len(l2), l2, u2)
+        held = {"l1": l1, "u1": u1, "l2": l2, "u2": u2}
+        if case.get("cont"):    # one bound handed over in an integer container (values are integers)
+            w_, as_ = case["cont"]["which"], case["cont"]["as"]
+            ints = [int(x) for x in case[w_]]
+            if [float(x) for x in ints] != [float(x) for x in case[w_]]:
+                raise RuntimeError("integer container requested for non-integer bound")
+            held[w_] = ints if as_ == "list" else np.array(ints, dtype={"int64": np.int64, "int32": np.int32}[as_])
+            ctx.count("bound_container_%s_%s" % (w_, as_))
+        r1 = RectangularConfidenceRegion(len(l1), held["l1"], held["u1"])
+        r2 = RectangularConfidenceRegion(len(l2), held["l2"], held["u2"])
         impl, ekey = _impl(order, r1, r2, slack)
         args = [ws, core.qvec(l1), core.qvec(u1), core.qvec(l2), core.qvec(u2), ss]
         model = ctx.ask("rect", *args)
-        stream = ("rect_intW" if case["order"].get("dtype") else "rect_exact") if case.get("exact") else "rect_float"
+        stream = ("rect_intW" if case["order"].get("dtype") else "rect_intB" if case.get("cont") else
+                  "rect_exact") if case.get("exact") else "rect_float"
         if shape.startswith("remote-"):
             ctx.count("remote_small_" + stream)
         ctx.count("stream_" + stream)
@@ -832,7 +874,9 @@ def run_case(ctx, case):
         if _guard_and_crash(ctx, case, "rect", impl, ekey, model):
             return
         if case.get("exact"):
-            _check_vertices(ctx, case, l1, u1)
+            _check_vertices(ctx, case, held["l1"], held["u1"])
+            if case.get("cont"):
+                _check_vertices(ctx, case, held["l2"], held["u2"])
             ctx.count("rect_exact_%s" % model)
             ctx.count("shape_" + shape.split("/")[1] + "_" + model)
             if impl != model:
@@ -1036,6 +1080,7 @@ def _run_shared(ctx, case, order, W, ws, slack, ss):
         exp.append([list(l), list(u)])
     iters = [bool(r.intersect_iteratively) for r in regs]
     verdicts = set()
+    sibling_reported = False     # one record per case: ctx keeps only the first 20 violation records
     for k in range(len(case["steps"]) + 1):
         touched = None
         if k > 0:
@@ -1064,6 +1109,10 @@ def _run_shared(ctx, case, order, W, ws, slack, ss):
             if shown == exp[i]:
                 continue
             if i != touched:
+                ctx.count("shared_sibling_mutated")
+                if sibling_reported:
+                    continue
+                sibling_reported = True
                 ctx.violation("region-mutated-by-sibling", "a rectangle region that was not updated changed its "
                               "displayed bounds after another region built from the same bound arrays was refined",
                               case, detail={"step": k, "region": i, "shown": shown, "should": exp[i]})
